@@ -1830,7 +1830,14 @@ func (p *Parser) expect(kind TokenKind) {
 	}
 	if kind == TokenGreater && p.check(TokenGreaterGreaterEqual) {
 		p.splitGreaterGreaterEqual()
+		return
 	}
+	// The expected token is missing: record the error instead of silently continuing
+	// (e.g. `f(1, 2;`, `o[0;`, `@group(0 @binding(0)` used to be accepted).
+	p.errors = append(p.errors, ParseError{
+		Message: fmt.Sprintf("expected %s, got %s", kind, p.peek().Kind),
+		Token:   p.peek(),
+	})
 }
 
 func (p *Parser) expectErr(kind TokenKind) *ParseError {
